@@ -152,6 +152,11 @@ Qed.
 Lemma Forall_perm {A} (P : A -> Prop) l l' : Permutation l l' -> Forall P l -> Forall P l'.
 Proof. intros Hp H. rewrite Forall_forall in *. intros x Hx. apply H. apply (Permutation_in _ (Permutation_sym Hp)). exact Hx. Qed.
 
+Lemma in_firstn {A} n (l : list A) x : In x (firstn n l) -> In x l.
+Proof. intro H. rewrite <- (firstn_skipn n l). apply in_or_app. left. exact H. Qed.
+Lemma in_skipn {A} n (l : list A) x : In x (skipn n l) -> In x l.
+Proof. intro H. rewrite <- (firstn_skipn n l). apply in_or_app. right. exact H. Qed.
+
 Lemma sort_list_sorted : forall fuel l l', Forall has_key l -> mp_sort_list fuel true l = Ok l' -> StronglySorted key_le l'.
 Proof.
   induction fuel as [|f IH]; intros l l' K H; [discriminate|].
@@ -163,8 +168,8 @@ Proof.
     destruct (mp_sort_list f true (firstn h (x :: y :: r))) as [s1| |] eqn:E1; cbn [bind] in H; try discriminate.
     destruct (mp_sort_list f true (skipn h (x :: y :: r))) as [s2| |] eqn:E2; cbn [bind] in H; try discriminate.
     injection H as <-.
-    assert (K1 : Forall has_key (firstn h (x :: y :: r))) by (apply Forall_forall; intros c Hc; apply firstn_In in Hc; rewrite Forall_forall in K; auto).
-    assert (K2 : Forall has_key (skipn h (x :: y :: r))) by (apply Forall_forall; intros c Hc; apply skipn_In in Hc; rewrite Forall_forall in K; auto).
+    assert (K1 : Forall has_key (firstn h (x :: y :: r))) by (apply Forall_forall; intros c Hc; apply in_firstn in Hc; rewrite Forall_forall in K; auto).
+    assert (K2 : Forall has_key (skipn h (x :: y :: r))) by (apply Forall_forall; intros c Hc; apply in_skipn in Hc; rewrite Forall_forall in K; auto).
     apply merge_runs_sorted.
     + apply (Forall_perm _ _ _ (sort_list_perm _ _ _ _ E1)). exact K1.
     + apply (Forall_perm _ _ _ (sort_list_perm _ _ _ _ E2)). exact K2.
